@@ -228,6 +228,9 @@ def run(ctx):
                     ctx.violation(bad[0], bad[1], h)
                 ctx.traces += 1
             ctx.sample({'kind': 'S->C history (%s)' % mode, 'steps': cases[len(cases) // 3]})
+        from .. import umbrella
+        uc.reset_units()
+        umbrella.run(ctx, am, 'C10')      # cross-module histories of spec/Atomman.tla (data-model round trips inside histories)
     finally:
         uc.reset_units()
 
